@@ -161,7 +161,7 @@ Lemma create_tail_run k kw id s :
     let s3 := with_caches (with_heap s (heap s ++ [i1])) c' in
     let s4 := with_log s3 (SSelectOne k id all_cols :: log s) in
     i_id i1 = id /\
-    (i_k i1 = k /\ i_obsolete i1 = false /\ i_pending i1 = [] /\ i_dirty i1 = false /\
+    (i_k i1 = k /\ i_obsolete i1 = false /\ i_pending i1 = [] /\ i_dirty i1 = false /\ i_expired i1 = false /\
      cache_created cfg k id o (with_heap s (heap s ++ [i1])) = (Ret tt, with_caches (with_heap s (heap s ++ [i1])) c')) /\
     create_tail k kw id s =
       if (match fault s with Some n => Nat.eqb n (length (log s)) | None => false end)
@@ -177,8 +177,8 @@ Proof.
   set (s1 := with_heap _ _).
   destruct (oc_cache_created cfg k id o s1) as ([] & c' & Ec). fold o. rewrite Ec.
   exists c', i1. split; [reflexivity|]. split.
-  { destruct (OrmLazy.fold_set_val_fields kw (blank_inst k 0)) as (Fd & Fp & Fk & _ & _ & Fo & _). cbn zeta in Fd, Fp, Fk, Fo.
-    subst i1. cbn. rewrite Fd, Fp, Fk, Fo. repeat split. exact Ec. }
+  { destruct (OrmLazy.fold_set_val_fields kw (blank_inst k 0)) as (Fd & Fp & Fk & _ & Fe & Fo & _). cbn zeta in Fd, Fp, Fk, Fe, Fo.
+    subst i1. cbn. rewrite Fd, Fp, Fk, Fe, Fo. repeat split. exact Ec. }
   unfold db_select_one, bind, statement, gets. cbn.
   assert (Et : forall l, tbl (with_log (with_caches s1 c') l) k = tbl s k) by reflexivity.
   destruct (fault s) as [n|]; [destruct (Nat.eqb n (length (log s)))|]; cbn; try reflexivity.
@@ -219,7 +219,36 @@ Proof.
     apply assoc_In in Ea. unfold get_inst. cbn. rewrite nth_last. cbn. rewrite Ei1. exact Ea.
 Qed.
 
+Lemma db_update_heap k id upd s : heap (snd (db_update k id upd s)) = heap s.
+Proof.
+  unfold db_update, bind, statement, gets, set_tbl, modify.
+  destruct (fault s) as [n|]; [destruct (Nat.eqb n (length (log s)))|]; cbn [fst snd]; try reflexivity.
+  all: change (tbl (with_log s (SUpdate k id (sort_cols (map fst upd)) :: log s)) k) with (tbl s k);
+    destruct (assoc id (t_rows (tbl s k))); try reflexivity;
+    destruct (constraint_error _ _ _ _); reflexivity.
+Qed.
+
+(* repaired behaviour: an eager assignment does not cache the value into an expired instance *)
+Theorem C05_assign_on_expired_not_cached_proof :
+  forall cfg s h o c v s',
+    nth h (slots s) None = Some o -> (o < length (heap s))%nat ->
+    cache_values (i_k (get_inst s o)) = true -> is_lazy (i_k (get_inst s o)) = false ->
+    i_expired (get_inst s o) = true ->
+    step cfg s (OSetAttr h c v) = (Ret RNone, s') ->
+    i_vals (get_inst s' o) = i_vals (get_inst s o).
+Proof.
+  intros cfg s h o c v s' Hh Hlt Hcv Hlz Hex H. unfold step in H. cbn [run_op] in H.
+  unfold bind, handle, gets in H. cbn in H. rewrite Hh in H. cbn in H.
+  unfold so_setattr, bind, gets in H. cbn in H.
+  change (get_inst (with_fault (with_log s []) None) o) with (get_inst s o) in H.
+  destruct v; cbn in H; try discriminate; rewrite Hlz, Hcv, Hex in H; cbn [andb negb] in H.
+  all: match type of H with context [db_update ?k ?id ?u ?st] =>
+         pose proof (db_update_heap k id u st) as Eh; destruct (db_update k id u st) as [[u1|e1] s1] end;
+       cbn in H, Eh; inversion H; subst s'; unfold get_inst; rewrite Eh; reflexivity.
+Qed.
+
 Print Assumptions C16_insert_immediate_proof.
 Print Assumptions C16_delete_immediate_proof.
 Print Assumptions C05_sync_refreshes_proof.
 Print Assumptions C05_expire_then_read_proof.
+Print Assumptions C05_assign_on_expired_not_cached_proof.
